@@ -1109,10 +1109,35 @@ def AgreeAcAbility (m : FF11.AcAbility) (s : Spec.At4.AcAbility) : Prop :=
     | some gs => (∀ g ∈ gs, g ≤ 15) ∧
         s.groupDisplay = some ((List.range 16).map fun n => decide (n ∈ gs)))
 
-theorem decRec_agrees_FF11 (ac len : Nat) (r : Bytes) (hlen : len = 22 ∨ len = 24) (hb : AllBytes r)
-    (a : FF11.AcAbility) (h : FF11.decRec (ac :: len :: r) = .ok a) :
-    len ≤ r.length ∧ FF11.recSize a = 2 + len ∧
-      ∃ s, Spec.At4.readAcAbilityBody ac len (r.take len) = some s ∧ AgreeAcAbility a s := by
+theorem decGroups_lt (fl : Nat) (after : Bytes) (h : fl < 24) : FF11.decGroups fl after = .ok none := by
+  unfold FF11.decGroups
+  have hw : FF11.followingWithGroups = 24 := rfl
+  rw [if_neg (show ¬ FF11.followingWithGroups ≤ fl by omega)]
+
+theorem decGroups_ge (fl lo hi : Nat) (tl : Bytes) (h : 24 ≤ fl) :
+    FF11.decGroups fl (lo :: hi :: tl) = .ok (some (FF11.decGroupDisplay (lo + 256 * hi))) := by
+  have hw : FF11.followingWithGroups = 24 := rfl
+  unfold FF11.decGroups
+  rw [if_pos (show FF11.followingWithGroups ≤ fl by omega)]
+
+theorem decGroups_ge_shape (fl : Nat) (after : Bytes) (g : Option (List Nat)) (h : 24 ≤ fl)
+    (hg : FF11.decGroups fl after = .ok g) : ∃ lo hi tl, after = lo :: hi :: tl := by
+  have hw : FF11.followingWithGroups = 24 := rfl
+  unfold FF11.decGroups at hg
+  rw [if_pos (show FF11.followingWithGroups ≤ fl by omega)] at hg
+  split at hg
+  · exact ⟨_, _, _, rfl⟩
+  · cases hg
+
+/-- One iteration of the repaired loop against the vendor reader, for EVERY following length: a successful
+iteration returns the following-length byte it read (the loop advances by `2 + len`), that byte is at least 22 and
+the record lies inside the rest of the announced length; and when the record's bytes are there (`len ≤ r.length`)
+the vendor reader reads the same record from them.  (22: no display bytes; 23: one undescribed byte, no display
+bytes; 24 and more: display bytes at Byte27/28, the rest undescribed.) -/
+theorem decRec_agrees_FF11 (ac len : Nat) (r : Bytes) (avail : Nat) (hb : AllBytes r)
+    (a : FF11.AcAbility) (fl : Nat) (h : FF11.decRec (ac :: len :: r) avail = .ok (a, fl)) :
+    fl = len ∧ 22 ≤ len ∧ 2 + len ≤ avail ∧ (len ≤ r.length →
+      ∃ s, Spec.At4.readAcAbilityBody ac len (r.take len) = some s ∧ AgreeAcAbility a s) := by
   simp only [FF11.decRec, FF11.nameLen] at h
   split at h
   · rename_i sg gc b23 b24 mn mx after hdrop
@@ -1122,55 +1147,79 @@ theorem decRec_agrees_FF11 (ac len : Nat) (r : Bytes) (hlen : len = 22 ∨ len =
       omega
     split at h
     · cases h
-    · rename_i groups hgroups
+    · rename_i hchk
+      simp only [X1FFF11AcAbility.FOLLOWING_LENGTH_BASE] at hchk
       split at h
       · cases h
-      · rename_i name hname
-        injection h with h
-        subst h
-        have hnm : name = cStringPrefix (r.take 16) := by
-          simp only [decodeCString] at hname
-          split at hname
-          · injection hname with hname; exact hname.symm
-          · cases hname
-        simp only [FF11.decGroups, FF11.followingWithGroups, X1FFF11AcAbility.FOLLOWING_LENGTH_BASE,
-          X1FFF11AcAbility.GROUP_DISPLAY_STRUCT_size] at hgroups
-        rcases hlen with rfl | rfl
-        · -- following length 22: no display bytes
-          simp only [Nat.reduceAdd, Nat.reduceEqDiff, ↓reduceIte] at hgroups
-          injection hgroups with hgroups
-          subst hgroups
-          refine ⟨by omega, by simp [FF11.recSize, X1FFF11AcAbility.STRUCT_size], ?_⟩
-          have hbl : (r.take 22).length = 22 := by simp only [List.length_take]; omega
-          have hbd : (r.take 22).drop 16 = [sg, gc, b23, b24, mn, mx] := by
-            rw [List.drop_take, hdrop]; rfl
-          have hbt : (r.take 22).take 16 = r.take 16 := by
-            rw [List.take_take]; rfl
-          simp only [Spec.At4.readAcAbilityBody, hbl, hbd, hbt]
-          refine ⟨_, rfl, ?_⟩
-          simp only [AgreeAcAbility, bit_eq _ _ (by decide : 0 < 1), bit_eq _ _ (by decide : 0 < 2),
-            bit_eq _ _ (by decide : 0 < 3), bit_eq _ _ (by decide : 0 < 4), bit_eq _ _ (by decide : 0 < 5),
-            bit_eq _ _ (by decide : 0 < 6), bit_eq _ _ (by decide : 0 < 7), Spec.At4.degToTenths]
-          refine ⟨trivial, by rw [hnm, untilNul_eq], trivial, trivial, ⟨rfl, rfl, rfl, rfl, rfl⟩,
-            ⟨rfl, rfl, rfl, rfl, rfl, rfl, rfl⟩, rfl, rfl, trivial⟩
-        · -- following length 24: two display bytes
-          simp only [Nat.reduceAdd, ↓reduceIte] at hgroups
-          split at hgroups
-          · rename_i lo hi tl
+      · rename_i groups hgroups
+        split at h
+        · cases h
+        · rename_i name hname
+          injection h with h; injection h with h1 h2
+          subst h1 h2
+          have hnm : name = cStringPrefix (r.take 16) := by
+            simp only [decodeCString] at hname
+            split at hname
+            · injection hname with hname; exact hname.symm
+            · cases hname
+          refine ⟨rfl, by omega, by omega, fun hle => ?_⟩
+          obtain ⟨k, rfl⟩ : ∃ k, len = 22 + k := ⟨len - 22, by omega⟩
+          have hbl : (r.take (22 + k)).length = 22 + k := by simp only [List.length_take]; omega
+          have hbt : (r.take (22 + k)).take 16 = r.take 16 := by
+            rw [List.take_take]; congr 1; omega
+          have hc : ¬ ((r.take (22 + k)).length ≠ 22 + k ∨ 22 + k < 22) := by omega
+          match k, hgroups, hle, hbl, hbt, hc with
+          | 0, hgroups, hle, hbl, hbt, hc =>
+            -- following length 22: no display bytes
+            rw [decGroups_lt _ _ (by omega)] at hgroups
             injection hgroups with hgroups
             subst hgroups
-            simp only [List.length_cons] at hrl
-            refine ⟨by omega, by simp [FF11.recSize, X1FFF11AcAbility.STRUCT_size,
-              X1FFF11AcAbility.GROUP_DISPLAY_STRUCT_size], ?_⟩
-            have hbl : (r.take 24).length = 24 := by simp only [List.length_take]; omega
-            have hbd : (r.take 24).drop 16 = [sg, gc, b23, b24, mn, mx, lo, hi] := by
+            have hbd : (r.take (22 + 0)).drop 16 = [sg, gc, b23, b24, mn, mx] := by
               rw [List.drop_take, hdrop]; rfl
-            have hbt : (r.take 24).take 16 = r.take 16 := by
-              rw [List.take_take]; rfl
+            unfold Spec.At4.readAcAbilityBody
+            rw [if_neg hc]
+            simp only [hbd, hbt]
+            refine ⟨_, rfl, ?_⟩
+            simp only [AgreeAcAbility, bit_eq _ _ (by decide : 0 < 1), bit_eq _ _ (by decide : 0 < 2),
+              bit_eq _ _ (by decide : 0 < 3), bit_eq _ _ (by decide : 0 < 4), bit_eq _ _ (by decide : 0 < 5),
+              bit_eq _ _ (by decide : 0 < 6), bit_eq _ _ (by decide : 0 < 7), Spec.At4.degToTenths]
+            refine ⟨trivial, by rw [hnm, untilNul_eq], trivial, trivial, ⟨rfl, rfl, rfl, rfl, rfl⟩,
+              ⟨rfl, rfl, rfl, rfl, rfl, rfl, rfl⟩, rfl, rfl, trivial⟩
+          | 1, hgroups, hle, hbl, hbt, hc =>
+            -- following length 23: one byte the document does not describe, no display bytes
+            rw [decGroups_lt _ _ (by omega)] at hgroups
+            injection hgroups with hgroups
+            subst hgroups
+            obtain ⟨x, tl, rfl⟩ : ∃ x tl, after = x :: tl := by
+              cases after with
+              | nil => simp only [List.length_nil] at hrl; omega
+              | cons x tl => exact ⟨x, tl, rfl⟩
+            have hbd : (r.take (22 + 1)).drop 16 = [sg, gc, b23, b24, mn, mx, x] := by
+              rw [List.drop_take, hdrop]; rfl
+            unfold Spec.At4.readAcAbilityBody
+            rw [if_neg hc]
+            simp only [hbd, hbt]
+            refine ⟨_, rfl, ?_⟩
+            simp only [AgreeAcAbility, bit_eq _ _ (by decide : 0 < 1), bit_eq _ _ (by decide : 0 < 2),
+              bit_eq _ _ (by decide : 0 < 3), bit_eq _ _ (by decide : 0 < 4), bit_eq _ _ (by decide : 0 < 5),
+              bit_eq _ _ (by decide : 0 < 6), bit_eq _ _ (by decide : 0 < 7), Spec.At4.degToTenths]
+            refine ⟨trivial, by rw [hnm, untilNul_eq], trivial, trivial, ⟨rfl, rfl, rfl, rfl, rfl⟩,
+              ⟨rfl, rfl, rfl, rfl, rfl, rfl, rfl⟩, rfl, rfl, trivial⟩
+          | k + 2, hgroups, hle, hbl, hbt, hc =>
+            -- following length 24 or more: two display bytes, then bytes the document does not describe
+            obtain ⟨lo, hi, tl, rfl⟩ := decGroups_ge_shape _ _ _ (by omega) hgroups
+            rw [decGroups_ge _ _ _ _ (by omega)] at hgroups
+            injection hgroups with hgroups
+            subst hgroups
+            have hbd : (r.take (22 + (k + 2))).drop 16 = sg :: gc :: b23 :: b24 :: mn :: mx :: lo :: hi :: tl.take k := by
+              rw [List.drop_take, hdrop, show 22 + (k + 2) - 16 = k + 8 by omega]
+              simp only [List.take_succ_cons]
             have hlo : lo < 256 := by
               have : lo ∈ r.drop 16 := by rw [hdrop]; simp
               exact hb lo (List.mem_of_mem_drop this)
-            simp only [Spec.At4.readAcAbilityBody, hbl, hbd, hbt]
+            unfold Spec.At4.readAcAbilityBody
+            rw [if_neg hc]
+            simp only [hbd, hbt]
             refine ⟨_, rfl, ?_⟩
             simp only [AgreeAcAbility, bit_eq _ _ (by decide : 0 < 1), bit_eq _ _ (by decide : 0 < 2),
               bit_eq _ _ (by decide : 0 < 3), bit_eq _ _ (by decide : 0 < 4), bit_eq _ _ (by decide : 0 < 5),
@@ -1178,34 +1227,28 @@ theorem decRec_agrees_FF11 (ac len : Nat) (r : Bytes) (hlen : len = 22 ∨ len =
             refine ⟨trivial, by rw [hnm, untilNul_eq], trivial, trivial, ⟨rfl, rfl, rfl, rfl, rfl⟩,
               ⟨rfl, rfl, rfl, rfl, rfl, rfl, rfl⟩, rfl, rfl, fun g hg => decGroupDisplay_le _ g hg, ?_⟩
             rw [groupDisplay_eq lo hi hlo]
-          · cases hgroups
   · cases h
 
-/-- the following length the vendor reader reports is the byte it read -/
+/-- the following length the vendor reader reports is the byte it read, and the body it read has that length -/
 theorem readAcAbilityBody_len (ac len : Nat) (body : List Nat) (s : Spec.At4.AcAbility)
-    (h : Spec.At4.readAcAbilityBody ac len body = some s) : s.followingLength = len := by
+    (h : Spec.At4.readAcAbilityBody ac len body = some s) : s.followingLength = len ∧ body.length = len := by
   simp only [Spec.At4.readAcAbilityBody] at h
   split at h
   · cases h
-  · split at h
-    · injection h with h; subst h; rfl
+  · rename_i hc
+    split at h
+    · injection h with h; subst h; exact ⟨rfl, by omega⟩
     · cases h
-
-/-- the following lengths the document gives: 22, and 24 from console version 1.2.3 -/
-def DocumentedLength (n : Nat) : Prop := n = 22 ∨ n = 24
-
-instance (n : Nat) : Decidable (DocumentedLength n) := by unfold DocumentedLength; infer_instance
 
 theorem decLoop_agrees_FF11 (b : Bytes) (hb : AllBytes b) (msgLen offset : Nat) :
     ∀ (acs : List FF11.AcAbility), FF11.decLoop b msgLen offset = .ok (acs, msgLen) → b.drop msgLen = [] →
     ∀ (fuel : Nat) (recs : List Spec.At4.AcAbility),
-      Spec.At4.readAcAbilityRecords fuel (b.drop offset) = some recs →
-      (∀ r ∈ recs, DocumentedLength r.followingLength) → AgreeList AgreeAcAbility acs recs := by
+      Spec.At4.readAcAbilityRecords fuel (b.drop offset) = some recs → AgreeList AgreeAcAbility acs recs := by
   fun_induction FF11.decLoop b msgLen offset with
   | case1 offset hlt e hrec => intro acs h; cases h
-  | case2 offset hlt ac hrec e hloop ih => intro acs h; cases h
-  | case3 offset hlt a hrec acs' off' hloop ih =>
-    intro acs h hend fuel recs hspec hdoc
+  | case2 offset hlt ac fl hrec e hloop ih => intro acs h; cases h
+  | case3 offset hlt a fl hrec acs' off' hloop ih =>
+    intro acs h hend fuel recs hspec
     injection h with h; injection h with h1 h2
     subst h1 h2
     -- the record starts with the AC number and the following length
@@ -1221,21 +1264,24 @@ theorem decLoop_agrees_FF11 (b : Bytes) (hb : AllBytes b) (msgLen offset : Nat) 
         · rename_i s rs hs hrs
           injection hspec with hspec
           subst hspec
-          have hlen : DocumentedLength len := by
-            have := hdoc s (by simp)
-            rwa [readAcAbilityBody_len ac len _ s hs] at this
+          have hle : len ≤ r.length := by
+            have := (readAcAbilityBody_len ac len _ s hs).2
+            simp only [List.length_take] at this
+            omega
           have hr : AllBytes r := fun x hx => hb x (List.mem_of_mem_drop (by rw [hd]; simp [hx]))
-          obtain ⟨hle, hsz, s', hs', hag⟩ := decRec_agrees_FF11 ac len r hlen hr a hrec
+          obtain ⟨hfl, _, _, hex⟩ := decRec_agrees_FF11 ac len r _ hr a fl hrec
+          obtain ⟨s', hs', hag⟩ := hex hle
+          subst hfl
           have hss : s' = s := Option.some.inj (hs'.symm.trans hs)
           subst hss
-          refine ⟨hag, ih acs' hloop hend fuel rs ?_ (fun x hx => hdoc x (by simp [hx]))⟩
-          have : b.drop (offset + FF11.recSize a) = r.drop len := by
-            rw [hsz, ← List.drop_drop, hd]
+          refine ⟨hag, ih acs' hloop hend fuel rs ?_⟩
+          have : b.drop (offset + (2 + fl)) = r.drop fl := by
+            rw [← List.drop_drop, hd]
             simp [← List.drop_drop]
           rw [this]; exact hrs
         · cases hspec
   | case4 offset hnlt =>
-    intro acs h hend fuel recs hspec hdoc
+    intro acs h hend fuel recs hspec
     injection h with h; injection h with h1 h2
     subst h1 h2
     rw [hend] at hspec
@@ -1272,95 +1318,156 @@ theorem readAcAbility_ext (b : Bytes) (hb : AllBytes b) :
   simp only [Spec.At4.readAcAbility, List.cons_append, List.nil_append, hall, Bool.not_true,
     Bool.false_eq_true, ↓reduceIte, Spec.At4.extPrefix, Spec.At4.extAcAbility, and_self]
 
-/-- **0xFF11.**  KNOWN DEFECT KEPT OUT BY HYPOTHESIS (`hspec`, `hdoc`): the decoder does not use the
-"following length" byte to advance, so the statement is made for payloads whose vendor reading consists of records
-with a documented following length (22, or 24) only; see `decode_agrees_FF11_refuted` for another length.
-Under it, every payload the decoder accepts as an AC ability message, fully consumed, whatever the announced
-length, has as many ACs as the vendor reading and agrees with it AC by AC.  (That the vendor reading exists is
-proved, from a hypothesis on the length bytes alone, in `decode_agrees_FF11_strong`.) -/
+/-- **0xFF11.**  For EVERY following length (the decoder advances by the "following length" byte, as the vendor
+reader does; formerly a recorded defect kept out by a hypothesis on the lengths): every payload the decoder accepts
+as an AC ability message, fully consumed, whatever the announced length, has as many ACs as the vendor reading and
+agrees with it AC by AC.  (That the vendor reading exists is proved in `decode_agrees_FF11_strong`.) -/
 theorem decode_agrees_FF11 (b : Bytes) (msgLen : Nat) (hb : AllBytes b) (acs : List FF11.AcAbility)
     (h : FF11.decode b msgLen = .ok (.ability acs, []))
-    (recs : List Spec.At4.AcAbility) (hspec : Spec.At4.readAcAbility ([0xFF, 0x11] ++ b) = some recs)
-    (hdoc : ∀ r ∈ recs, DocumentedLength r.followingLength) :
+    (recs : List Spec.At4.AcAbility) (hspec : Spec.At4.readAcAbility ([0xFF, 0x11] ++ b) = some recs) :
     AgreeList AgreeAcAbility acs recs := by
   obtain ⟨hloop, hend⟩ := decode_FF11_inv b msgLen acs h
   rw [readAcAbility_ext b hb] at hspec
-  exact decLoop_agrees_FF11 b hb msgLen 0 acs hloop hend b.length recs (by simpa using hspec) hdoc
-
-/-- the following-length bytes met when the payload is walked the way the document prescribes
-(AC number, following length, that many bytes, repeat) -/
-def followingLengths : Nat → List Nat → List Nat
-  | fuel + 1, _ :: len :: rest => len :: followingLengths fuel (rest.drop len)
-  | _, _ => []
+  exact decLoop_agrees_FF11 b hb msgLen 0 acs hloop hend b.length recs (by simpa using hspec)
 
 theorem decLoop_reads_FF11 (b : Bytes) (hb : AllBytes b) (msgLen offset : Nat) :
     ∀ (acs : List FF11.AcAbility), FF11.decLoop b msgLen offset = .ok (acs, msgLen) → b.drop msgLen = [] →
+    msgLen ≤ b.length →
     ∀ (fuel : Nat), (b.drop offset).length ≤ fuel →
-      (∀ l ∈ followingLengths fuel (b.drop offset), DocumentedLength l) →
-      ∃ recs, Spec.At4.readAcAbilityRecords fuel (b.drop offset) = some recs ∧
-        ∀ r ∈ recs, DocumentedLength r.followingLength := by
+      ∃ recs, Spec.At4.readAcAbilityRecords fuel (b.drop offset) = some recs := by
   fun_induction FF11.decLoop b msgLen offset with
   | case1 offset hlt e hrec => intro acs h; cases h
-  | case2 offset hlt ac hrec e hloop ih => intro acs h; cases h
-  | case3 offset hlt a hrec acs' off' hloop ih =>
-    intro acs h hend fuel hfuel hdoc
+  | case2 offset hlt ac fl hrec e hloop ih => intro acs h; cases h
+  | case3 offset hlt a fl hrec acs' off' hloop ih =>
+    intro acs h hend hlen fuel hfuel
     injection h with h; injection h with h1 h2
     subst h1 h2
     match hd : b.drop offset, hrec with
     | [], hrec | [_], hrec => simp [FF11.decRec] at hrec
     | ac :: len :: r, hrec =>
-      rw [hd] at hfuel hdoc
+      have hdl : b.length - offset = r.length + 2 := by
+        have := congrArg List.length hd
+        simpa only [List.length_drop, List.length_cons] using this
+      rw [hd] at hfuel
       simp only [List.length_cons] at hfuel
       obtain ⟨f, rfl⟩ : ∃ f, fuel = f + 1 := ⟨fuel - 1, by omega⟩
-      simp only [followingLengths, List.mem_cons, forall_eq_or_imp] at hdoc
       have hr : AllBytes r := fun x hx => hb x (List.mem_of_mem_drop (by rw [hd]; simp [hx]))
-      obtain ⟨hle, hsz, s, hs, _⟩ := decRec_agrees_FF11 ac len r hdoc.1 hr a hrec
-      have hnext : b.drop (offset + FF11.recSize a) = r.drop len := by
-        rw [hsz, ← List.drop_drop, hd]
+      obtain ⟨hfl, _, hfit, hex⟩ := decRec_agrees_FF11 ac len r _ hr a fl hrec
+      subst hfl
+      obtain ⟨s, hs, _⟩ := hex (by omega)
+      have hnext : b.drop (offset + (2 + fl)) = r.drop fl := by
+        rw [← List.drop_drop, hd]
         simp [← List.drop_drop]
-      obtain ⟨rs, hrs, hrsdoc⟩ := ih acs' hloop hend f
-        (by rw [hnext]; simp only [List.length_drop]; omega) (by rw [hnext]; exact hdoc.2)
+      obtain ⟨rs, hrs⟩ := ih acs' hloop hend hlen f
+        (by rw [hnext]; simp only [List.length_drop]; omega)
       rw [hnext] at hrs
-      refine ⟨s :: rs, by simp only [Spec.At4.readAcAbilityRecords, hs, hrs], ?_⟩
-      intro x hx
-      rcases List.mem_cons.mp hx with rfl | hx
-      · rw [readAcAbilityBody_len ac len _ _ hs]; exact hdoc.1
-      · exact hrsdoc x hx
+      exact ⟨s :: rs, by simp only [Spec.At4.readAcAbilityRecords, hs, hrs]⟩
   | case4 offset hnlt =>
-    intro acs h hend fuel _ _
+    intro acs h hend _ fuel _
     injection h with h; injection h with h1 h2
     subst h1 h2
     rw [hend]
-    exact ⟨[], by cases fuel <;> rfl, fun r hr => by cases hr⟩
+    exact ⟨[], by cases fuel <;> rfl⟩
 
-/-- **0xFF11, with the vendor reading proved to exist.**  The hypothesis speaks of the payload alone: every
-following-length byte met when walking the payload by those very bytes is 22 or 24.  Then every payload the
-decoder accepts as an AC ability message, fully consumed, IS an ability message for the vendor reader, with as many
-ACs, agreeing AC by AC. -/
+/-- **0xFF11, with the vendor reading proved to exist.**  The only hypothesis is what the receive path
+guarantees: the bytes announced are there (`msgLen ≤ b.length`; the frame layer hands the decoder exactly
+`message_length` bytes).  Then every payload the decoder accepts as an AC ability message, fully consumed, IS an
+ability message for the vendor reader, with as many ACs, agreeing AC by AC - whatever the following lengths.
+Without the hypothesis: `decode_agrees_FF11_needs_length`. -/
 theorem decode_agrees_FF11_strong (b : Bytes) (msgLen : Nat) (hb : AllBytes b) (acs : List FF11.AcAbility)
     (h : FF11.decode b msgLen = .ok (.ability acs, []))
-    (hdoc : ∀ l ∈ followingLengths b.length b, DocumentedLength l) :
+    (hlen : msgLen ≤ b.length) :
     ∃ recs, Spec.At4.readAcAbility ([0xFF, 0x11] ++ b) = some recs ∧ AgreeList AgreeAcAbility acs recs := by
   obtain ⟨hloop, hend⟩ := decode_FF11_inv b msgLen acs h
-  obtain ⟨recs, hrecs, hrdoc⟩ := decLoop_reads_FF11 b hb msgLen 0 acs hloop hend b.length
-    (by simp) (by simpa using hdoc)
+  obtain ⟨recs, hrecs⟩ := decLoop_reads_FF11 b hb msgLen 0 acs hloop hend hlen b.length (by simp)
   have hrecs' : Spec.At4.readAcAbilityRecords b.length b = some recs := by simpa using hrecs
   refine ⟨recs, by rw [readAcAbility_ext b hb, hrecs'], ?_⟩
-  exact decLoop_agrees_FF11 b hb msgLen 0 acs hloop hend b.length recs hrecs hrdoc
+  exact decLoop_agrees_FF11 b hb msgLen 0 acs hloop hend b.length recs hrecs
 
-/-- the payload of `decode_agrees_FF11_refuted`: one AC (number 0) with following length 46, 46 zero bytes -/
-def ff11LongRecord : Bytes := [0, 46] ++ List.replicate 46 0
+/-- if the vendor reader reads what the loop walked, the bytes the loop walked (and skipped) are all there -/
+theorem decLoop_spec_length_FF11 (b : Bytes) (hb : AllBytes b) (msgLen offset : Nat) :
+    ∀ (acs : List FF11.AcAbility), FF11.decLoop b msgLen offset = .ok (acs, msgLen) →
+    ∀ (fuel : Nat) (recs : List Spec.At4.AcAbility),
+      Spec.At4.readAcAbilityRecords fuel (b.drop offset) = some recs → offset < msgLen → msgLen ≤ b.length := by
+  fun_induction FF11.decLoop b msgLen offset with
+  | case1 offset hlt e hrec => intro acs h; cases h
+  | case2 offset hlt ac fl hrec e hloop ih => intro acs h; cases h
+  | case3 offset hlt a fl hrec acs' off' hloop ih =>
+    intro acs h fuel recs hspec _
+    injection h with h; injection h with h1 h2
+    subst h1 h2
+    match hd : b.drop offset, hrec with
+    | [], hrec | [_], hrec => simp [FF11.decRec] at hrec
+    | ac :: len :: r, hrec =>
+      have hdl : b.length - offset = r.length + 2 := by
+        have := congrArg List.length hd
+        simpa only [List.length_drop, List.length_cons] using this
+      rw [hd] at hspec
+      match fuel, hspec with
+      | 0, hspec => simp [Spec.At4.readAcAbilityRecords] at hspec
+      | fuel + 1, hspec =>
+        simp only [Spec.At4.readAcAbilityRecords] at hspec
+        split at hspec
+        · rename_i s rs hs hrs
+          have hle : len ≤ r.length := by
+            have := (readAcAbilityBody_len ac len _ s hs).2
+            simp only [List.length_take] at this
+            omega
+          have hr : AllBytes r := fun x hx => hb x (List.mem_of_mem_drop (by rw [hd]; simp [hx]))
+          obtain ⟨hfl, _, hfit, _⟩ := decRec_agrees_FF11 ac len r _ hr a fl hrec
+          subst hfl
+          by_cases hc : offset + (2 + fl) < off'
+          · have hnext : b.drop (offset + (2 + fl)) = r.drop fl := by
+              rw [← List.drop_drop, hd]
+              simp [← List.drop_drop]
+            exact ih acs' hloop fuel rs (by rw [hnext]; exact hrs) hc
+          · omega
+        · cases hspec
+  | case4 offset hnlt => intro acs h fuel recs hspec hlt; exact absurd hlt hnlt
 
-def isTwoAbilities : Except DecErr (FF11.Msg × Bytes) → Bool
-  | .ok (.ability [_, _], []) => true
+/-- **The exact condition** under which the vendor reader reads a payload the decoder accepts as an ability
+message (nothing left over): the announced bytes are there.  (On the receive path they always are.) -/
+theorem decode_FF11_vendor_reads_iff (b : Bytes) (msgLen : Nat) (hb : AllBytes b) (acs : List FF11.AcAbility)
+    (h : FF11.decode b msgLen = .ok (.ability acs, [])) :
+    (∃ recs, Spec.At4.readAcAbility ([0xFF, 0x11] ++ b) = some recs) ↔ msgLen ≤ b.length := by
+  constructor
+  · rintro ⟨recs, hspec⟩
+    obtain ⟨hloop, hend⟩ := decode_FF11_inv b msgLen acs h
+    rw [readAcAbility_ext b hb] at hspec
+    have hpos : 0 < msgLen := by
+      simp only [FF11.decode] at h
+      split at h
+      · injection h with h; injection h with h1 _; cases h1
+      · omega
+    exact decLoop_spec_length_FF11 b hb msgLen 0 acs hloop b.length recs (by simpa using hspec) hpos
+  · intro hlen
+    obtain ⟨recs, hrecs, _⟩ := decode_agrees_FF11_strong b msgLen hb acs h hlen
+    exact ⟨recs, hrecs⟩
+
+/-- one AC (number 0) with following length 46: the 22 described bytes ("UNIT", groups 0-3, 17-31 °C), display
+bytes `05 80` (groups 1, 3, 16), and 22 bytes a future console might append -/
+def ff11LongRecord : Bytes :=
+  [0, 46, 0x55, 0x4e, 0x49, 0x54, 0, 0, 0, 0, 0, 0, 0, 0, 0, 0, 0, 0, 0x00, 0x04, 0x17, 0x1d, 0x11, 0x1f, 0x05, 0x80] ++
+    List.replicate 22 0xEE
+
+def isOneAbilityWithGroups (gs : List Nat) : Except DecErr (FF11.Msg × Bytes) → Bool
+  | .ok (.ability [a], []) => a.groups == some gs
   | _ => false
 
-/-- the recorded defect (following length not used to advance): for the 48-byte payload `00 2e 00…00` the
-vendor reader sees ONE AC whose following length is 46; the decoder, fully consuming the payload, returns TWO
-ACs (the second made of the undocumented tail). -/
-theorem decode_agrees_FF11_refuted :
-    isTwoAbilities (FF11.decode ff11LongRecord 48) = true ∧
+/-- the repaired defect, concretely: for the 48-byte payload `00 2e …` the vendor reader sees ONE AC whose following
+length is 46, and so does the decoder (it used to return TWO, the second made of the undocumented tail). -/
+theorem decode_FF11_long_record :
+    isOneAbilityWithGroups [0, 2, 15] (FF11.decode ff11LongRecord 48) = true ∧
     (Spec.At4.readAcAbility ([0xFF, 0x11] ++ ff11LongRecord)).map (·.map (·.followingLength)) = some [46] := by
+  constructor <;> decide +kernel
+
+/-- The length hypothesis of `decode_agrees_FF11_strong` cannot be dropped: the decoder never looks at the bytes it
+skips, so with an announced length of 48 it accepts the first 26 bytes of `ff11LongRecord` (nothing left over);
+the vendor reader refuses a record whose 46 following bytes are not there.  Not reachable through the receive
+path, which reads exactly `message_length` bytes. -/
+theorem decode_agrees_FF11_needs_length :
+    isOneAbilityWithGroups [0, 2, 15] (FF11.decode (ff11LongRecord.take 26) 48) = true ∧
+    Spec.At4.readAcAbility ([0xFF, 0x11] ++ ff11LongRecord.take 26) = none := by
   constructor <;> decide +kernel
 
 /-- the request forms (`FF 11`, `FF 11 n`) are not a response for the vendor reader (zero records / `none`) -/
